@@ -230,7 +230,7 @@ func (c *Ctx) RunInst(tier string) {
 		}
 	}
 	rec(nil, false)
-	rep.Bound = fmt.Sprintf("instrumented build, default schedule, step budget 1e6 ticks: every string of <=%d lexemes over a 24-lexeme alphabet (the last slot rotating over %d special byte sequences: NUL, ^Z, 0xFF, =, &, !, CR-LF, comment, |, >, ==, a truncated UTF-8 sequence); lengths <%d under three configurations", L, len(Specials), L)
+	rep.Bound = fmt.Sprintf("instrumented build, default schedule, step budget 1e6 ticks: every string of <=%d lexemes over a 24-lexeme alphabet (the last slot rotating over %d special sequences: NUL, ^Z, 0xFF, =, &, !, CR-LF, comment, |, >, ==, a truncated UTF-8 sequence, non-ASCII digits / letters / spaces, operators glued to a letter, form feed, ...); lengths <%d under three configurations", L, len(Specials), L)
 
 	if thorough {
 		sub := []string{"a", "dat", "equ", "for", "rof", "0", "+", "(", ",", ";assert", "\n", "="}
